@@ -1,15 +1,16 @@
 -------------------------------- MODULE Trace --------------------------------
 (* Universal trace specification: dispatches every event to its package.   *)
-EXTENDS TraceDate
+EXTENDS TraceDate, TraceRoman
 
-TraceInit == TraceBaseInit /\ DateInit
+TraceInit == TraceBaseInit /\ DateInit /\ RomanInit
 
 TraceNext ==
   \/ /\ l <= Len(Trace)
      /\ LET e == Trace[l] IN
-          \/ IsDateOp(e) /\ DateStep(e)
+          \/ IsDateOp(e)  /\ DateStep(e)  /\ UNCHANGED rvars
+          \/ IsRomanOp(e) /\ RomanStep(e) /\ UNCHANGED <<dvars, ctx>>
      /\ l' = l + 1
-  \/ Finish /\ UNCHANGED dvars
+  \/ Finish /\ UNCHANGED <<dvars, rvars>>
 
-TraceSpec == TraceInit /\ [][TraceNext]_<<tvars, dvars>>
+TraceSpec == TraceInit /\ [][TraceNext]_<<tvars, dvars, rvars>>
 =============================================================================
